@@ -971,6 +971,8 @@ impl RLN {
         let signal: Vec<u8> = serialized[all_read..all_read + signal_len].to_vec();
 
         let verified = verify_proof(&self.verification_key, &proof, &proof_values)?;
+        #[cfg(zerokit_verif)]
+        utils::verif::yield_point("verify_rln_proof_mid");
         let x = hash_to_field(&signal);
 
         // Consistency checks to counter proof tampering
@@ -1046,6 +1048,8 @@ impl RLN {
         let signal: Vec<u8> = serialized[all_read..all_read + signal_len].to_vec();
 
         let verified = verify_proof(&self.verification_key, &proof, &proof_values)?;
+        #[cfg(zerokit_verif)]
+        utils::verif::yield_point("verify_with_roots_mid");
 
         // First consistency checks to counter proof tampering
         let x = hash_to_field(&signal);
@@ -1056,6 +1060,8 @@ impl RLN {
             return Ok(partial_result);
         }
 
+        #[cfg(zerokit_verif)]
+        utils::verif::yield_point("verify_with_roots_roots");
         // We read passed roots
         let mut roots_serialized: Vec<u8> = Vec::new();
         roots_data.read_to_end(&mut roots_serialized)?;
